@@ -70,7 +70,7 @@ theorem live_enter (P : Program) (F : Flags) (c c' : Config) (a : Nat) (kind : K
     rcases hback b y hy with ⟨_, rfl⟩ | ⟨hba, z, hz, ks, rfl, _⟩
     · rw [hfk] at hlk; cases hlk
     · -- which kids does b have in c'?
-      rcases hcase with ⟨k', _, _, _, hoth⟩ | ⟨p, px, s0, hpx, hfree, hslot, _, hpa, hp', hoth⟩
+      rcases hcase with ⟨k', _, _, _, hoth⟩ | ⟨p, px, s0, hpx, hfree, hslot, _, hpa, hp', hoth, _⟩
       · have e := hoth b hba
         rw [hy, hz] at e
         have hks : ks = z.kids := by
